@@ -174,3 +174,33 @@ func Programs(starts, alpha []refsem.Step, maxLen int) [][]refsem.Step {
 	}
 	return out
 }
+
+// PathPrograms: V() / V(a) / E(), then every sequence of k moves (1 <= k <= maxMoves), optionally with a mark
+// after the first move, then path(). Path bookkeeping is per traveler and grows with every move, so it needs
+// depth rather than breadth: long move chains with a fan-out at the last step.
+func PathPrograms(maxMoves int) [][]refsem.Step {
+	moves := []refsem.Step{st("out"), st("in"), st("both"), st("outE"), st("inE")}
+	var out [][]refsem.Step
+	level := [][]refsem.Step{{st("V")}, {st("V", "a")}, {st("E")}}
+	for k := 1; k <= maxMoves; k++ {
+		var next [][]refsem.Step
+		for _, p := range level {
+			for _, m := range moves {
+				np := append(append([]refsem.Step{}, p...), m)
+				if ty, _, _ := refsem.TypeOf(np); ty == refsem.WellTyped {
+					next = append(next, np)
+				}
+			}
+		}
+		for _, p := range next {
+			out = append(out, append(append([]refsem.Step{}, p...), st("path")))
+			if k >= 2 {
+				withMark := append(append([]refsem.Step{}, p[:2]...), st("as", "m1"))
+				withMark = append(append(withMark, p[2:]...), st("path"))
+				out = append(out, withMark)
+			}
+		}
+		level = next
+	}
+	return out
+}
